@@ -2109,7 +2109,7 @@ def check_C05(ctx):
                     diff.append(k)
             rep.ob("C05.profiles", "MIR differs only by overflow asserts", not diff, "functions whose control flow differs between the profiles: %s" % diff[:3])
         ctx.guard("C05.unchecked", unchecked)
-    else:
+    elif getattr(ctx, "profile", None) != "unchecked":
         rep.assumptions.append("quick tier: the profile without overflow checks is covered by the argument that no overflow assert can fail (so wrapping and checked arithmetic coincide); the thorough tier re-runs the search analysis on the -C overflow-checks=off MIR")
 
 
